@@ -63,6 +63,8 @@ type GeneratorOutput struct {
 	Options   GeneratorOptions  `json:"meta"`
 	SourceMap *parser.SourceMap `json:"sourceMap"`
 	Literals  []string          `json:"literals"`
+	// CodeHash is a digest of the generated Go code without the contents of its string literals.
+	CodeHash string `json:"codeHash"`
 }
 
 type GeneratorOptions struct {
@@ -92,6 +94,11 @@ func HasChanged(previous, updated GeneratorOutput) bool {
 	// We don't check the generated date as it's not used for determining if the file has changed.
 	// If the number of literals has changed, we need to recompile.
 	if len(previous.Literals) != len(updated.Literals) {
+		return true
+	}
+	// If anything other than the contents of the literals has changed, we need to recompile: the same expressions
+	// can be used in different code, e.g. { f() } and {{ f() }}, or title={ x } and style={ x }.
+	if previous.CodeHash != updated.CodeHash {
 		return true
 	}
 	// If the Go code has changed, we need to recompile.
@@ -126,6 +133,7 @@ func Generate(template parser.TemplateFile, w io.Writer, opts ...GenerateOpt) (o
 	op.Options = g.options
 	op.SourceMap = g.sourceMap
 	op.Literals = g.w.Literals
+	op.CodeHash = g.w.CodeHash()
 	return op, nil
 }
 
@@ -189,7 +197,10 @@ func (g *generator) writeVersionComment() (err error) {
 
 func (g *generator) writeGeneratedDateComment() (err error) {
 	if g.options.GeneratedDate != "" {
+		// The generated date is not used for determining if the file has changed.
+		g.w.skipHash = true
 		_, err = g.w.Write("// templ: generated: " + g.options.GeneratedDate + "\n")
+		g.w.skipHash = false
 	}
 	return err
 }
